@@ -8,33 +8,36 @@ use crate::{judge, registry, run_form, shapes, tables, TypeInfo, MIRI};
 use pv::{json, Collector, Ctx, Value};
 use std::process::Command;
 
-const EXTRA: &[&str] = &[
-    "Srgb<f32x4>",
-    "Alpha<Srgb<f32x4>>",
-    "PreAlpha<LinSrgb<f32x4>>",
-    "Alpha<PreAlpha<LinSrgb<f32>>>",
-    "Packed<Rgba,[f64;5]>",
+/// One instantiation per class that matters to the unsafe code: every N (1..=5), component
+/// sizes 1/2/4/8/16 bytes and alignments up to 16, derived / macro-generated / hand-written
+/// (Alpha, PreAlpha, Packed, Luma-as-uint, Packed-as-uint) implementations.
+const SUBSET: &[&str] = &[
+    "Luma<u16>",
+    "Alpha<Luma<u8>>",
+    "Srgb<u8>",
+    "Hsv<f32>",
+    "Cam16Jch<f32>",
+    "Alpha<Srgb<u8>>",
+    "Alpha<Lab<f64>>",
+    "PreAlpha<LinSrgb<f32>>",
+    "Alpha<Alpha<Srgb<u8>>>",
+    "Packed<Rgba,[u8;4]>",
     "Packed<Rgba,[u32;2]>",
-    "Luma<f64>",
-    "Alpha<Hsv<u8>>",
-    "PreAlpha<Luma<f64>>",
-    "Cam16UcsJab<f64>",
-    "Lms<f32>",
+    "Alpha<Srgb<f32x4>>",
     "Luma<u8> as uint",
-    "Luma<u32> as uint",
     "Luma<u128> as uint",
     "Packed<Rgba,u16> as uint",
     "Packed<Rgba,u64> as uint",
 ];
 
 fn in_subset(t: &TypeInfo) -> bool {
-    t.run_traits.is_some() || EXTRA.contains(&t.name.as_str())
+    SUBSET.contains(&t.name.as_str())
 }
 
-/// Under Miri the cast traits (thin delegations to the free functions) run on every third
-/// representative type only; all free-function, std and round-trip forms run on the whole subset.
-fn traits_too(i: usize) -> bool {
-    i % 3 == 1
+/// Under Miri the cast traits (thin delegations to the free functions) run on one representative
+/// type; all free-function, std and round-trip forms run on the whole subset.
+fn traits_too(t: &TypeInfo) -> bool {
+    t.name == "Alpha<Srgb<u8>>"
 }
 
 fn case_id(t: &TypeInfo, table: u8, form: &str, p: &P) -> String {
@@ -92,11 +95,9 @@ pub fn child(args: &[String]) -> i32 {
         let p = P { owner: Owner::parse(parts[3]).unwrap_or(Owner::Slice), len: parts[4].parse().unwrap_or(0), cap: parts[5].parse().unwrap_or(0), pat: parts[6].parse().unwrap_or(0) };
         one(t, table, fm, p);
     } else {
-        let mut k = 0;
         for t in types.iter().filter(|t| in_subset(t)) {
-            k += 1;
             for (table, forms) in tables(t) {
-                if table != 0 && !traits_too(k) {
+                if table != 0 && !traits_too(t) {
                     continue;
                 }
                 for fm in forms.iter() {
@@ -179,6 +180,12 @@ fn case_value(id: &str, observed: &str) -> Value {
 
 fn first_error_line(e: &str) -> String {
     let l = e.lines().next().unwrap_or("abort");
+    let l = l.strip_prefix("error: ").unwrap_or(l);
+    // "Undefined Behavior: incorrect layout on deallocation: alloc123 has .." -> "UB: incorrect layout on deallocation"
+    let l = match l.strip_prefix("Undefined Behavior: ") {
+        Some(rest) => format!("UB: {}", rest.split(|c| c == ':' || c == ',').next().unwrap_or(rest)),
+        None => l.to_string(),
+    };
     // keep the class of the error, drop addresses / allocation ids
     let l: String = l.chars().filter(|c| !c.is_ascii_digit()).collect();
     l.chars().take(90).collect::<String>().trim().to_string()
@@ -190,17 +197,16 @@ fn report(c: &mut Collector, r: &ChildRun) {
         c.warn("miri oracle did not run; C04 thorough is missing its UB oracle".into());
         return;
     }
-    for v in &r.child_viol {
-        let id = v.split(" :: ").next().unwrap_or("");
-        let kind = v.split(" :: ").nth(1).unwrap_or("judge");
-        let parts: Vec<&str> = id.split('|').collect();
-        c.violation(&format!("C04/miri/{}@{}/{}/{}", parts.get(2).unwrap_or(&""), parts.get(3).unwrap_or(&""), kind, parts.first().unwrap_or(&"")), 1.0, || case_value(id, v));
+    // failures of the ordinary oracle inside the child repeat what the native enumeration reports
+    // (same judge, superset of cases): they are counted, not turned into signatures of their own
+    if !r.child_viol.is_empty() {
+        c.note("miri_child_oracle_failures", json!({"count": r.child_viol.len(), "first": r.child_viol[0]}));
     }
     if !r.done {
         let id = r.last_case.clone().unwrap_or_default();
         let parts: Vec<&str> = id.split('|').collect();
         c.violation(
-            &format!("C04/miri/{}@{}/{}/{}", parts.get(2).unwrap_or(&""), parts.get(3).unwrap_or(&""), first_error_line(&r.error), parts.first().unwrap_or(&"")),
+            &format!("C04/miri/{}@{}/{}", parts.get(2).unwrap_or(&""), parts.get(3).unwrap_or(&""), first_error_line(&r.error)),
             1.0,
             || case_value(&id, &r.error),
         );
@@ -235,7 +241,7 @@ pub fn parent(ctx: &Ctx, c: &mut Collector) {
     c.exhaustive(
         "miri",
         all_done,
-        "the representative instantiations (every hand-written unsafe impl, every N, component size and alignment class) × all free-function/std/round-trip forms (+ cast traits on a third of them) × lengths 0..=N+2 × capacities len..=len+N, executed under Miri (Stacked Borrows, alignment, allocation-layout and leak checks) in parallel shards",
+        "the representative instantiations (every hand-written unsafe impl, every N, component size and alignment class) × all free-function/std/round-trip forms (+ every cast trait × owner on one of them) × lengths 0..=N+2 × capacities len..=len+N, executed under Miri (Stacked Borrows, alignment, allocation-layout and leak checks) in parallel shards",
     );
 }
 
